@@ -181,7 +181,10 @@ Copy(S, kind, sf, sp, df, dp, ow) ==
   IF S.root[sf] = 0 \/ (SameFile(sf, df) /\ ow) THEN S
   ELSE
   LET S1 == IF ow \/ S.root[df] = 0 THEN OpenFile(S, df, "w") ELSE S IN
-  IF ~CopyOk(S, kind, sf, sp, df, dp, ow) THEN S1
+  IF ~CopyOk(S, kind, sf, sp, df, dp, ow)
+    THEN IF SameFile(sf, df) /\ kind \in {"ln", "mv"} /\ CanPut(S1, df, dp) /\ Resolve(S1, sf, sp) # 0
+            THEN EnsureParents(S1, df, dp)     \* refused link to an object of another file: the parents exist by then
+            ELSE S1
   ELSE IF SameFile(sf, df)
     THEN IF kind = "lns" THEN PutLink(S1, df, dp, SoftTo(sp))
          ELSE IF kind = "ln" THEN PutLink(S1, df, dp, HardTo(Resolve(S1, sf, sp)))
@@ -203,10 +206,7 @@ InDomain(S, kind, sf, sp, df, dp, ow) ==
   /\ (~SameFile(sf, df) /\ Len(dp) = 0 /\ kind \in {"cp", "mv"} /\ ~ow /\ S.root[df] # 0) =>
         (S.objs[S.root[df]].c = 0 /\ \A n \in Names : S.objs[S.root[df]].kids[n].k = "none")
   /\ kind = "mv" => SameFile(sf, df)          \* mv is documented (and judged) within one file
-  \* a destination whose parent lies behind an external link would be written into the OTHER file (which the
-  \* operation may hold open read-only): not modelled
-  /\ (Len(dp) > 0 /\ S.root[df] # 0 /\ ~ow) =>
-        LET S1 == EnsureParents(S, df, dp) IN
-          Resolve(S1, df, Parent(dp)) = 0 \/ FileOfPath(S1, df, Parent(dp)) = df
-  /\ ~(kind = "lns" /\ SameFile(sf, df) /\ IsPrefixPath(dp, sp))      \* a soft link that points at or below itself
+  \* a destination whose parent path runs through a soft or external link is not modelled (h5py fails in
+  \* several ways there: 'address undefined', writes into the other file, ...)
+  /\ \A j \in 1..(Len(dp) - 1) : LinkAt(S, df, SubSeq(dp, 1, j)).k \in {"none", "h"}
 =============================================================================
